@@ -32,8 +32,10 @@ VARIABLES l,
           plan,     \* base tags of the samples of one shot ([] = the ammo's own tag)
           exp,      \* gun -> expected base tags of the shot in progress
           pos,      \* gun -> samples handed over in the shot in progress
+          nshots,   \* gun -> Shoot calls in this run
+          prof,     \* [perinst, klo, khi]: rps-per-instance run and the tokens of the configured profile
           handed    \* bag: content [tag, code, err] -> handed over and not yet written by the aggregator
-tx == <<plan, exp, pos, handed>>
+tx == <<plan, exp, pos, handed, nshots, prof>>
 
 Trace == ndJsonDeserialize(IOEnv.VERIF_TRACE)
 Ev == Trace[l]
@@ -42,6 +44,7 @@ Mark == TLCSet(1, IF TLCGet(1) > l + 1 THEN TLCGet(1) ELSE l + 1)
 EmptyBag == [x \in {} |-> 0]
 TraceInit == /\ l = 1 /\ TLCSet(1, 1) /\ Init
              /\ plan = <<>> /\ exp = [g \in Guns |-> <<>>] /\ pos = [g \in Guns |-> 0] /\ handed = EmptyBag
+             /\ nshots = [g \in Guns |-> 0] /\ prof = [perinst |-> FALSE, klo |-> 0, khi |-> 0]
 
 Quiet == \A g \in Guns : nShoot[g] = 0
 Stutter == UNCHANGED vars
@@ -50,9 +53,10 @@ TRun == /\ Ev.ev = "Run" /\ Quiet
         /\ pend' = {} /\ made' = {} /\ owners' = [g \in Guns |-> {}] /\ busy' = [i \in Insts |-> FALSE]
         /\ nShoot' = [g \in Guns |-> 0] /\ shooter' = [g \in Guns |-> {}] /\ cur' = [g \in Guns |-> "-"]
         /\ used' = {} /\ defs' = "T" /\ view' = [g \in Guns |-> "none"] /\ inCrit' = {} /\ sent' = {} /\ shots' = 0
-        /\ UNCHANGED svars
+        /\ UNCHANGED <<svars, schvars>>
         /\ \A x \in DOMAIN handed : handed[x] = 0
         /\ plan' = Ev.steps /\ exp' = [g \in Guns |-> <<>>] /\ pos' = [g \in Guns |-> 0] /\ handed' = EmptyBag
+        /\ nshots' = [g \in Guns |-> 0] /\ prof' = [perinst |-> Ev.perinst, klo |-> Ev.klo, khi |-> Ev.khi]
 TNewGun == Ev.ev = "NewGun" /\ Ev.gun \in Guns /\ NewGun(Ev.gid, Ev.gun) /\ UNCHANGED tx
 TBind == Ev.ev = "Bind" /\ Ev.ok /\ Ev.gun \in Guns /\ Ev.inst \in Insts /\ Bind(Ev.gid, Ev.inst, Ev.gun) /\ UNCHANGED tx
 TShootBegin == /\ Ev.ev = "ShootBegin" /\ Ev.gun \in Guns
@@ -61,7 +65,8 @@ TShootBegin == /\ Ev.ev = "ShootBegin" /\ Ev.gun \in Guns
                \* (the HTTP guns' ammo hides its tag from the decorator: "*" = one sample with any tag)
                /\ exp' = [exp EXCEPT ![Ev.gun] = IF plan # <<>> THEN plan ELSE IF Ev.ammo = "" THEN <<"*">> ELSE <<Ev.ammo>>]
                /\ pos' = [pos EXCEPT ![Ev.gun] = 0]
-               /\ UNCHANGED <<plan, handed>>
+               /\ nshots' = [nshots EXCEPT ![Ev.gun] = @ + 1]
+               /\ UNCHANGED <<plan, handed, prof>>
 Agree(ts) == Len(ts) > 0 /\ \A j \in 1..Len(ts) : ts[j] = ts[1] /\ ts[1] \notin {"", "-"}
 \* the call carries the token of the ammo in Shoot on some gun ...
 RecvCarried(t) == \E g \in Guns : cur[g] = t /\ Send(g, t, t, defs, view, FALSE)
@@ -69,7 +74,7 @@ RecvCarried(t) == \E g \in Guns : cur[g] = t /\ Send(g, t, t, defs, view, FALSE)
 RecvDrawn(t) == /\ \E g \in Guns : nShoot[g] > 0 /\ cur[g] = "" /\ g \notin inCrit
                 /\ t \notin used
                 /\ used' = used \cup {t}
-                /\ UNCHANGED <<pend, made, owners, busy, nShoot, shooter, cur, defs, view, inCrit, sent, shots, svars>>
+                /\ UNCHANGED <<pend, made, owners, busy, nShoot, shooter, cur, defs, view, inCrit, sent, shots, svars, schvars>>
 TRecv == Ev.ev = "Recv" /\ Agree(Ev.toks) /\ (RecvCarried(Ev.toks[1]) \/ RecvDrawn(Ev.toks[1])) /\ UNCHANGED tx
 Content(e) == [tag |-> e.tag, code |-> e.code, err |-> e.err]
 BagAdd(b, x) == IF x \in DOMAIN b THEN [b EXCEPT ![x] = @ + 1] ELSE b @@ (x :> 1)
@@ -79,18 +84,22 @@ TSample == /\ Ev.ev = "Sample"
                                 /\ pos[g] < Len(exp[g]) /\ exp[g][pos[g] + 1] \in {Ev.base, "*"}
                                 /\ pos' = [pos EXCEPT ![g] = @ + 1]
            /\ handed' = BagAdd(handed, Content(Ev))
-           /\ UNCHANGED <<vars, plan, exp>>
+           /\ UNCHANGED <<vars, plan, exp, nshots, prof>>
 \* the aggregator wrote one of the samples it was handed, as it was handed (AggWrite)
 TPhout == /\ Ev.ev = "Phout" /\ ~Ev.bad /\ Quiet
           /\ Content(Ev) \in DOMAIN handed /\ handed[Content(Ev)] > 0
           /\ handed' = [handed EXCEPT ![Content(Ev)] = @ - 1]
-          /\ UNCHANGED <<vars, plan, exp, pos>>
+          /\ UNCHANGED <<vars, plan, exp, pos, nshots, prof>>
 TShootEnd == /\ Ev.ev = "ShootEnd" /\ Ev.gun \in Guns /\ Ev.gid \in shooter[Ev.gun]
              /\ pos[Ev.gun] >= 1                       \* a shot hands over at least the sample of its first step
              /\ \E i \in owners[Ev.gun] : ShootEnd(i, Ev.gun)
              /\ UNCHANGED tx
 TEnd == /\ Ev.ev \in {"PoolDone", "RunEnd"} /\ Quiet /\ Stutter /\ UNCHANGED tx
         /\ Ev.ev = "RunEnd" => \A x \in DOMAIN handed : handed[x] = 0
+        \* rps-per-instance: every instance owns its schedule, so every bound gun shot the FULL profile
+        \* (Isolation!FullProfile; klo..khi computed from the configured rps list by StartupMath)
+        /\ (Ev.ev = "PoolDone" /\ prof.perinst) =>
+               \A g \in Guns : owners[g] # {} => (nshots[g] >= prof.klo /\ nshots[g] <= prof.khi)
 
 TraceNext == /\ l <= Len(Trace)
              /\ (TRun \/ TNewGun \/ TBind \/ TShootBegin \/ TRecv \/ TSample \/ TPhout \/ TShootEnd \/ TEnd)
